@@ -54,6 +54,7 @@ def some(v):
 
 
 NONE = ("agg", OPT + "::None", ())
+CONTINUES = ("call", "search::continues", (), ())   # loops walked once: the search goes on with the next item
 
 
 def ok(v):
@@ -660,6 +661,7 @@ class Paths:
             res = self._apply_callable(raw(1), [item], depth)
             if res is None:
                 return None
+            nx = self._val(st, nx)
             cases = [([("variant", nx, ("None",))], [], done)]
             for f2, e2, r2 in res:
                 f2 = [("variant", nx, ("Some",))] + f2
@@ -674,6 +676,37 @@ class Paths:
                     cases.append((f2, e2, r2))
                 else:
                     cases.append((f2, e2, done))
+            return cases
+        if self.loops == "once" and name in ("find", "rfind", "any", "all", "position", "find_map") and len(args) == 2 and \
+                ("iter::traits::iterator::Iterator" in path or "iter::traits::double_ended::DoubleEndedIterator" in path or path.startswith("<") and "Iterator>::" in path):
+            # a search loop walked once: no item / the item decides the search / the search goes on (CONTINUES)
+            it = raw(0)
+            nx = ("call", "core::iter::traits::iterator::Iterator::" + ("next_back" if name == "rfind" else "next"), (), (it,))
+            item = ("payload", nx)
+            res = self._apply_callable(raw(1), [item], depth)
+            if res is None:
+                return None
+            nx = self._val(st, nx)
+            item = ("payload", nx)
+            empty = {"find": NONE, "rfind": NONE, "find_map": NONE, "position": NONE, "any": ("const", False), "all": ("const", True)}[name]
+            cases = [([("variant", nx, ("None",))], [], empty)]
+            for f2, e2, r2 in res:
+                f2 = [("variant", nx, ("Some",))] + f2
+                if name == "find_map":
+                    for f3, pay, v in self._split(r2, OPT):
+                        cases.append((f2 + f3, e2, some(pay) if v == "Some" else CONTINUES))
+                    continue
+                for tv in (True, False):
+                    for conj in self._bool_cases(r2, tv):
+                        if name in ("find", "rfind"):
+                            val = some(item) if tv else CONTINUES
+                        elif name == "position":
+                            val = some(("call", "search::position", (), (it,))) if tv else CONTINUES
+                        elif name == "any":
+                            val = ("const", True) if tv else CONTINUES
+                        else:
+                            val = CONTINUES if tv else ("const", False)
+                        cases.append((f2 + conj, e2, val))
             return cases
         if name in ("call", "call_mut", "call_once") and "ops::function" in path and len(args) == 2:
             tup = A(1)
